@@ -29,7 +29,11 @@ What is transcribed (pyatv tree under test, after the `fix:` commits of findings
   (`_get_pairing_data`, `HttpConnection.send_and_receive`), wrong PIN (the device answers the
   proof with an error), dropped reply (the timeouts of `MrpProtocol._receive`,
   `SharedData.wait`, `HttpConnection.send_and_receive`), garbage, a missing required field
-  (`pairing_data[TlvValue.X]`, `body["pk"]`, `_require_fields`), disconnect.
+  (`pairing_data[TlvValue.X]`, `body["pk"]`, `_require_fields`), disconnect.  `garbage` and
+  `missingField` include faults INSIDE the sealed sub-messages (pair-setup M6: `SRPAuthHandler.step4`
+  requires Identifier, PublicKey, Signature, rejects impossible credentials and verifies the
+  accessory signature over AccessoryX+identifier+LTPK; pair-verify M2: `verify1` compares the
+  identifier with the paired one and verifies the signature).
   `AirPlayPairingHandler.begin` resetting `_has_paired = False` is not a step (the flag is
   already false in every run considered here).
 
@@ -188,6 +192,50 @@ def runPins (s : List Step) (expected typed : Nat) : Outcome × St :=
   match pinFault expected typed, proofIndex? s with
   | some f, some i => run s (some (i, f))
   | _, _ => run s none
+
+/-! ## sequences of operations on one DMAP handler
+
+`pin()` may be called several times and the device may send several `/pair` requests, in any
+order (dmap/pairing.py `pin`, `handle_request`, `_verify_pin`, `finish`).  A request is judged
+against the PIN that is current WHEN IT ARRIVES (nothing is remembered from earlier
+requests or earlier PINs); no PIN given at all = any code is accepted (documented behaviour).
+The pairing code is a function of the PIN, so a request is represented by the PIN its code was
+derived from (`none` = a code that belongs to no PIN). -/
+
+inductive DOp | pin (p : Nat) | request (code : Option Nat) | finish
+  deriving DecidableEq, Repr
+
+structure DSt where
+  pin : Option Nat
+  paired : Bool
+  stored : Bool
+  deriving DecidableEq, Repr
+
+def DSt.init : DSt := ⟨none, false, false⟩
+
+def accepts (pin : Option Nat) (code : Option Nat) : Bool :=
+  match pin with
+  | none => true
+  | some p => code == some p
+
+def dstep (s : DSt) : DOp → DSt
+  | .pin p => { s with pin := some p }
+  | .request c => if accepts s.pin c then { s with paired := true } else s
+  | .finish => if s.paired then { s with stored := true } else s
+
+def drun (ops : List DOp) : DSt := ops.foldl dstep DSt.init
+
+/-- the PIN given by the most recent `pin()` of a sequence -/
+def lastPin : List DOp → Option Nat
+  | [] => none
+  | .pin p :: r => (match lastPin r with | some q => some q | none => some p)
+  | _ :: r => lastPin r
+
+/-- answers (accepted?) to the requests of a sequence, in order -/
+def answers : DSt → List DOp → List Bool
+  | _, [] => []
+  | s, .request c :: r => accepts s.pin c :: answers (dstep s (.request c)) r
+  | s, op :: r => answers (dstep s op) r
 
 /-! ## well-formedness predicates (all decidable, computed) -/
 
